@@ -100,7 +100,7 @@ fn space(tier: Tier) -> DocSpace {
     let base = traversal_space(tier, Lay::Default);
     let fillers: Vec<&str> = match tier {
         Tier::Quick => vec![" ", "\n", " /* é😀 */ "],
-        Tier::Thorough => vec![" ", "\n", " /* é😀 */ ", "\r\n", "\n \u{a0}e\u{301} \n", "\t", " //c\n  "],
+        Tier::Thorough => vec![" ", "\n", " /* é😀 */ ", "\r\n", "\n /* \u{a0}e\u{301} */\u{a0}\n", "\t", " //c\n  "],
     };
     for e in base.entries {
         let mut layouts = Vec::new();
